@@ -29,7 +29,8 @@ PROP = "C07"
 # ops: ["ko", gid] ["kom", [gid...], form] ["rko", index] ["setf", gid, bool]
 
 BOUNDS = [("-1000", "1000"), ("0", "1000"), ("-10", "5"), ("0", "0"), ("2", "8"), ("-8", "-2"), ("1/2", "3/2"),
-          ("-1000", "0"), ("-3/4", "0")]
+          ("-1000", "0"), ("-3/4", "0"), ("5", "5"), ("-3", "-3"), ("1/2", "1/2")]     # incl. fixed non-zero fluxes
+
 
 
 def q(x):
